@@ -57,6 +57,12 @@ void prio_unit(fsm_t* self, EventSource source, HandledEnum handled, _Bool queue
 __CPROVER_requires(__CPROVER_is_fresh(self, sizeof(*self)) && source == g_source && (int)handled == g_handled && queue_first == g_queue_first && g_order == 0)
 __CPROVER_assigns(g_order)
 __CPROVER_ensures(((source & (EVENT_SOURCE_DEFERRED | EVENT_SOURCE_MSG_QUEUE)) == 0) ==> g_order == 2)     /*@ob C04,C05.top-level-event-runs-both-passes */
+/* the pass that has PRIORITY also runs after a step that came from the OTHER store: with queue priority the message queue is drained after a
+   re-offered deferred event was handled (its behaviours may have submitted events, which go before the remaining deferred ones); by default
+   the deferred events are re-offered after a queued event was handled.  Nested passes of the same kind never run (stub preconditions). */
+__CPROVER_ensures((queue_first && (source & EVENT_SOURCE_MSG_QUEUE) == 0 && (source & EVENT_SOURCE_DEFERRED) != 0) ==> g_order == 1)     /*@ob C04,C05.with-queue-priority-the-message-queue-is-drained-after-a-re-offered-deferred-event */
+__CPROVER_ensures((!queue_first && (source & EVENT_SOURCE_DEFERRED) == 0 && (source & EVENT_SOURCE_MSG_QUEUE) != 0) ==> g_order == 1)    /*@ob C05,C04.by-default-deferred-events-are-re-offered-after-a-queued-event-was-handled */
+__CPROVER_ensures((queue_first ? (source & EVENT_SOURCE_MSG_QUEUE) != 0 : (source & EVENT_SOURCE_DEFERRED) != 0) ==> g_order == 0)           /*@ob C04,C05.no-pass-at-all-while-the-store-with-priority-is-being-drained */
 ;
 
 /* ---------------- backmp11 ---------------- */
